@@ -237,6 +237,17 @@ def classify(e, loop_pos=None):
     return cls, qn, tag, pos
 
 
+class _ReachedIntegration(BaseException):
+    pass
+
+
+class _NoIntegration:
+    """stands in for scipy.integrate inside virocon.jointmodels while a malformed cdf call is made"""
+    @staticmethod
+    def nquad(*a, **k):
+        raise _ReachedIntegration()
+
+
 def run_real(spec, seed=0):
     """run the session on the real code; returns None (every step returned) or an observation dict"""
     V = _V.get()
@@ -298,10 +309,22 @@ def run_real(spec, seed=0):
         # phase 3: evaluation
         if spec.get("points") is not None:
             p = spec["points"]
+            pts = np.array(p["pts"], dtype=float)
+            # a rejected call must raise before any integration: for non-finite points the integrator that cdf would
+            # call is replaced (from outside) by a stub; reaching it means the call went on to compute a result
+            stub = p["cdf"] and not np.isfinite(pts).all()
+            J = V["J"]
+            real_integrate = J.integrate
+            if stub:
+                J.integrate = _NoIntegration()
             try:
-                (model.cdf if p["cdf"] else model.pdf)(np.array(p["pts"], dtype=float))
+                (model.cdf if p["cdf"] else model.pdf)(pts)
+            except _ReachedIntegration:
+                pass
             except Exception as e:  # noqa
                 return dict(zip(("exc", "site", "tag", "pos"), classify(e)), phase="PhEval", msg=str(e)[:160])
+            finally:
+                J.integrate = real_integrate
         # phase 4: contour
         if spec.get("contour") is not None:
             c = spec["contour"]
@@ -315,7 +338,11 @@ def run_real(spec, seed=0):
                     C.IFORMContour(mdl, 0.1, n_points=8)
                 else:
                     cls = {"direct": C.DirectSamplingContour, "and": C.AndContour, "or": C.OrContour}[c["kind"]]
-                    smp = model.draw_sample(2000, random_state=seed) if n == 2 else None
+                    smp = None
+                    if n == 2:
+                        smp = model.draw_sample(2000, random_state=seed)
+                    elif c.get("sample") == "two_columns":
+                        smp = data[:, :2].copy()      # caller-supplied sample with exactly two columns
                     cls(model, 0.1, sample=smp)
             except Exception as e:  # noqa
                 return dict(zip(("exc", "site", "tag", "pos"), classify(e)), phase="PhContour", msg=str(e)[:160])
@@ -414,8 +441,9 @@ def coq_contour(c):
 def coq_points(p):
     if p is None:
         return "None"
+    rows = p["pts"] if (p["pts"] and isinstance(p["pts"][0], (list, tuple))) else [p["pts"]]
     return "(Some (%s, [%s]))" % ("true" if p["cdf"] else "false",
-                                  "; ".join("[" + "; ".join("(%s)%%float" % vlib.fl(x) for x in row) + "]" for row in p["pts"]))
+                                  "; ".join("[" + "; ".join("(%s)%%float" % vlib.fl(x) for x in row) + "]" for row in rows))
 
 
 def coq_scenario(spec, seed):
@@ -797,12 +825,23 @@ def m_too_few_intervals(spec, c, v):
 
 
 def m_nonfinite_point(spec, i, v):
+    """nan / +inf / -inf at coordinate i, for pdf and for cdf, as one row of a 2-D array and as a single 1-D point"""
     n = len(spec["descs"])
-    rows = 1 + v % 3
-    pts = good_points(n, rows)
-    pts[v % rows][i] = [float("nan"), float("inf"), float("-inf")][v % 3]
-    spec["points"] = {"cdf": (v // 3) % 2 == 1, "pts": pts}
-    return {"cls": "non_finite_evaluation_point", "pos": i, "phase": "PhEval"}
+    kind = v % 3
+    cdf = (v // 3) % 2 == 1
+    single = (v // 6) % 2 == 1
+    val = [float("nan"), float("inf"), float("-inf")][kind]
+    if single:
+        pts = good_points(n, 1)[0]
+        pts[i] = val
+    else:
+        rows = 2 + (v + i) % 2
+        pts = good_points(n, rows)
+        pts[(v + i) % rows][i] = val
+    spec["points"] = {"cdf": cdf, "pts": pts}
+    return {"cls": "non_finite_evaluation_point", "pos": i, "phase": "PhEval",
+            "detail": "%s(%s), %s at coordinate %d" % ("cdf" if cdf else "pdf", "single point" if single else "one row of %d" % len(pts),
+                                                        ["nan", "+inf", "-inf"][kind], i)}
 
 
 def _hdc(spec, v):
@@ -856,10 +895,15 @@ def m_hdc_nan(spec, i, v):
 
 
 def m_not_2d(spec, i, v):
+    """a 2-D-only contour on a 1-, 3- or 4-dimensional model, without a sample and with a caller-supplied sample of
+    exactly two columns (which the 2-D algorithm could digest)"""
     if i != 0 or len(spec["descs"]) == 2:
         return None
-    spec["contour"] = {"kind": ["direct", "and", "or"][v % 3]}
-    return {"cls": "two_dimensional_contour_on_other_dimension", "pos": 0, "phase": "PhContour"}
+    with_sample = (v // 3) % 2 == 1
+    spec["contour"] = {"kind": ["direct", "and", "or"][v % 3], "sample": "two_columns" if with_sample else None}
+    return {"cls": "two_dimensional_contour_on_other_dimension", "pos": 0, "phase": "PhContour",
+            "detail": "%s contour on a %d-dimensional model, %s" % (spec["contour"]["kind"], len(spec["descs"]),
+                                                                     "sample with two columns supplied" if with_sample else "no sample supplied")}
 
 
 def m_iform_model_type(spec, i, v):
@@ -878,6 +922,8 @@ LATE_INJ = [m_nonfinite_point, m_hdc_limits_length, m_hdc_deltas_length, m_hdc_l
 ALL_INJ = MODEL_INJ + FIT_INJ + SLICER_INJ + LATE_INJ
 INJ_BY_NAME = {f.__name__: f for f in ALL_INJ}
 NEEDS_FIT = set(f.__name__ for f in FIT_INJ) | {"m_unknown_reference", "m_reference_type", "m_too_few_intervals"}
+# number of variants of the injected value (default 3)
+NVARIANTS = {"m_nonfinite_point": 12, "m_not_2d": 6}
 
 
 GROUP = {"m_first_conditional": "hierarchy", "m_cond_self": "hierarchy", "m_cond_later": "hierarchy",
@@ -930,7 +976,7 @@ def oracle(spec, real):
     if real is None:
         return ({"clause": "accepted", "group": grp, "malformation": sig_cls, "supplied_in": exp},
                 "ill-formed session (%s) is accepted: every step returned a result" % ", ".join(
-                    "%s at dimension %d" % (m["cls"], m["pos"]) for m in spec["mal"]))
+                    "%s at dimension %d%s" % (m["cls"], m["pos"], " [%s]" % m["detail"] if m.get("detail") else "") for m in spec["mal"]))
     if PHASES.index(real["phase"]) > PHASES.index(exp):
         return ({"clause": "rejected-late", "group": grp, "malformation": sig_cls, "supplied_in": exp, "raised_in": real["phase"]},
                 "ill-formed input (%s at dimension %d) supplied in %s is only rejected in %s (%s in %s)" % (
@@ -949,7 +995,7 @@ def shrink(spec, sig, seed):
     for n in range(1, 5):
         for struct in structures(n):
             for pos in range(n):
-                for v in range(3):
+                for v in range(NVARIANTS.get(inj[0], 3)):
                     cand = build_case(n, struct, fams_for(n, "LogNormal", pos, 0), [(inj[0], pos)], v)
                     if cand is None:
                         continue
@@ -977,13 +1023,14 @@ def replay(ctx, spec):
 def singles(ns, full):
     """every injector x every position x every structure x every family as carrier"""
     for n in ns:
-        for struct in structures(n):
+        for si, struct in enumerate(structures(n)):
             for pos in range(n):
                 for f in ALL_INJ:
                     nm = f.__name__
                     fam_list = FAMILIES if (full or f in MODEL_INJ or f in FIT_INJ) else [FAMILIES[(n + pos) % 8]]
                     for fi, fam in enumerate(fam_list):
-                        for v in (range(3) if full else [(n + pos + fi) % 3]):
+                        nv = NVARIANTS.get(nm, 3)
+                        for v in (range(nv) if full else [(n + pos + fi + si) % nv]):
                             yield (n, struct, fams_for(n, fam, pos, fi + v), [(nm, pos)], v)
 
 
@@ -1052,6 +1099,12 @@ def run(ctx):
             (2, (None, 0), ["Weibull", "LogNormal"], [("m_ppi_ref_not_callable", 0)], 0),
             (1, (None,), ["LogNormal"], [("m_first_conditional", 0)], 1)]
     gens += lead
+    for n in (1, 2, 3, 4):
+        chain = tuple([None] + list(range(n - 1)))
+        for nm in sorted(NVARIANTS):
+            for pos in range(n):
+                for v in range(NVARIANTS[nm]):
+                    gens.append((n, chain, fams_for(n, FAMILIES[(n + pos + v) % 8], pos, v), [(nm, pos)], v))
     if quick:
         by_inj = {}
         for g in singles([1, 2, 3, 4], full=False):
